@@ -140,6 +140,11 @@ pub struct Ctx {
     pub threads: usize,
     pub known: Vec<KnownFinding>,
     pub strict: bool,
+    /// run only the engine with this name (debugging aid)
+    pub only: Option<String>,
+    pub trace: bool,
+    /// scale every case count by this factor (debugging aid)
+    pub scale: f64,
     stats: Mutex<BTreeMap<String, EngineStats>>,
     pub violations: Mutex<Vec<ViolationRec>>,
     pub infra_errors: Mutex<Vec<String>>,
@@ -184,6 +189,9 @@ impl Ctx {
             threads,
             known,
             strict: false,
+            only: None,
+            trace: std::env::var("FV_TRACE").is_ok(),
+            scale: 1.0,
             stats: Mutex::new(BTreeMap::new()),
             violations: Mutex::new(vec![]),
             infra_errors: Mutex::new(vec![]),
@@ -322,7 +330,14 @@ impl Ctx {
     ) -> Option<Fail> {
         self.heartbeat.fetch_add(1, Ordering::Relaxed);
         crate::util::set_current(eng.name(), case);
+        if self.trace {
+            eprintln!("TRACE {} {}", eng.name(), serde_json::to_string(case).unwrap_or_default());
+        }
+        let t0 = std::time::Instant::now();
         let res = guarded(|| eng.check(case));
+        if self.trace && t0.elapsed().as_millis() > 50 {
+            eprintln!("SLOW {}ms {} {}", t0.elapsed().as_millis(), eng.name(), serde_json::to_string(case).unwrap_or_default());
+        }
         crate::util::clear_current();
         let out = match res {
             Ok(o) => o,
@@ -359,7 +374,15 @@ impl Ctx {
     }
 
     /// Sharded proptest search. `cases` is the total number of generated cases.
+    fn skip(&self, name: &str) -> bool {
+        matches!(&self.only, Some(o) if o != name)
+    }
+
     pub fn search<E: Engine>(&self, eng: &E, cases: u64, strat: impl Fn() -> BoxedStrategy<E::Case> + Sync) {
+        if self.skip(eng.name()) {
+            return;
+        }
+        let cases = ((cases as f64) * self.scale).ceil() as u64;
         let excluded: Mutex<HashSet<String>> = Mutex::new(HashSet::new());
         let shards = self.threads.max(1) as u64;
         let base = self.seed ^ fnv_str(&self.prop).rotate_left(17) ^ fnv_str(eng.name());
@@ -388,7 +411,7 @@ impl Ctx {
                         let cfg = Config {
                             cases: remaining.min(u32::MAX as u64) as u32,
                             failure_persistence: None,
-                            max_shrink_iters: 4096,
+                            max_shrink_iters: 600,
                             max_local_rejects: 1 << 20,
                             max_global_rejects: 1 << 20,
                             verbose: 0,
@@ -460,6 +483,9 @@ impl Ctx {
     /// Deterministic enumeration of `total` cases, `make(i)` building case i. Reports, per
     /// signature, the failing case with the smallest index.
     pub fn enumerate<E: Engine>(&self, eng: &E, total: u64, make: impl Fn(u64) -> Option<E::Case> + Sync) {
+        if self.skip(eng.name()) {
+            return;
+        }
         let excluded: Mutex<HashSet<String>> = Mutex::new(HashSet::new());
         let best: Mutex<BTreeMap<String, (u64, E::Case, Fail)>> = Mutex::new(BTreeMap::new());
         let next = AtomicU64::new(0);
